@@ -36,6 +36,16 @@ void vr_get(const char *name, void *dst, size_t elem, size_t n);
  * VCOVERMODE (vacuity guard, separate run): only the input-diversity markers are compiled, as assertions that must FAIL. */
 #ifdef VCOVERMODE
 # define VCOVER(c, what) __CPROVER_assert(!(c), "COVER:" what)
+/* markers that need the library call to have run are only compiled when the obligation asks for them (they make the
+ * vacuity run as expensive as the proof); otherwise the vacuity run stops in front of the call: it then decides whether
+ * the harness's assumptions admit the marked inputs, which is what guards against a contradictory precondition */
+# ifdef V_COVER_POST
+#  define VCOVER_POST(c, what) __CPROVER_assert(!(c), "COVER:" what)
+#  define VCOVER_END ((void)0)
+# else
+#  define VCOVER_POST(c, what) ((void)0)
+#  define VCOVER_END return
+# endif
 # define VPOST(tags, c, what)  ((void)0)
 # define VFRAME(tags, c, what) ((void)0)
 # define VPRE(tags, c, what)   ((void)0)
@@ -44,6 +54,8 @@ void vr_get(const char *name, void *dst, size_t elem, size_t n);
 # define VKF(kfdef_on, region, c, kfid, what) ((void)0)
 #else
 # define VCOVER(c, what) ((void)0)
+# define VCOVER_POST(c, what) ((void)0)
+# define VCOVER_END ((void)0)
 /* tags: comma-separated property ids the assertion belongs to, e.g. "C06,C07" (a check for property P counts a failed
  * assertion only if P is among its tags) */
 # define VPOST(tags, c, what)  __CPROVER_assert((c), "V:post[" tags "] " what)
